@@ -257,6 +257,25 @@ Definition transfer (k : skel) (flt : option filter_obj) (chunk : N) (ign : bool
 Definition upload (g : fguard) := transfer (std_skel g Local Remote).
 Definition download (g : fguard) := transfer (std_skel g Remote Local).
 
+(* upload_package(conn, module, remotepath, chunk_size): upload of the module's directory, no filter, ignore_invalid
+   left at its default *)
+Definition upload_package (g : fguard) (chunk : N) (w : world) : result world := upload g None chunk false w.
+
+(* no entry that is neither file nor directory anywhere in the tree *)
+Fixpoint no_special (n : node) : bool :=
+  match n with
+  | Special => false
+  | File _ => true
+  | Dir es => (fix all (es : list (name * node)) : bool :=
+                 match es with [] => true | (_, c) :: r => no_special c && all r end) es
+  end.
+
+(* on which side each filesystem call of the family runs, as the skeleton says *)
+Definition sides_table (k : skel) : list (string * side) :=
+  [("probe", tk_probe (sk_top k)); ("open_src", fk_src (sk_file k)); ("open_dst", fk_dst (sk_file k));
+   ("mk", dk_mk (sk_dir k)); ("list", dk_list (sk_dir k)); ("join_src", dk_src_join (sk_dir k));
+   ("join_dst", dk_dst_join (sk_dir k))]%string.
+
 (* ------------------------------------------------------------------ harness interface *)
 Fixpoint node_of_sx (fuel : nat) (x : sx) : node :=
   match fuel with
@@ -319,9 +338,13 @@ Definition run_files (x : sx) : sx :=
         sx_result (fun tr => SL [SB (List.concat (fst tr)); SL (map (fun p => sN (nlen p)) (fst tr)); SL (map sN (snd tr))])
           (copy_file_trace std_body (sx_n chunk) data)
       else bad_input
-  | SL [t; flt; n] =>
+  | SL [t; a; b] =>
       if is_tag "prune" t then
-        let nd := node_sx n in SL [sbool (wf_tree nd); sx_of_node (prune (wanted (filter_of_sx flt)) nd)]
+        let nd := node_sx b in SL [sbool (wf_tree nd); sx_of_node (prune (wanted (filter_of_sx a)) nd)]
+      else if is_tag "sides" t then
+        SL (map (fun e => SL [SS (fst e); sbool (match snd e with Remote => true | Local => false end)])
+                (sides_table (if sx_bool b then std_skel (guard_of_sx a) Remote Local
+                              else std_skel (guard_of_sx a) Local Remote)))
       else bad_input
   | _ => bad_input
   end.
